@@ -596,6 +596,10 @@ def run(model, rep):
     from . import c05 as _c05
     _c05.rule_b(model, Renamed(rep, {"C05.b": "C01.m-size-check"}, "C01.x-"))
     c12.rule_copies(model, Renamed(rep, {"C12.g": "C01.k-libpass-helper-copies"}, "C01.x-"))
+    # hash() / verify() reach the checksum through the lazily selected backend: the selection state is written by set_backend alone and a
+    # dry-run query installs nothing (rule shared with C03)
+    from . import c03 as _c03
+    _c03.rule_g(model, Renamed(rep, {"C03.g-backend-state-owner": "C01.n-backend-state", "C03.g-dryrun-forwarded": "C01.n-dryrun-forwarded"}, "C01.x-"))
     c12.rule_alphabets(model, Renamed(rep, {"C12.e": "C01.l-codec-alphabets", "C12.f": "C01.l-b64-helpers"}, "C01.x-"))
     rule_f(model, rep)
     rule_g(model, rep)
